@@ -1,5 +1,6 @@
 (* C09_Check.v — correspondence checker for C09 (update/delete without condition). *)
 From Verif Require Export Base Sem Where_Model.
+Open Scope Z_scope.
 
 Record case := mk_case {
   c_atoms : atom_table;
@@ -11,7 +12,8 @@ Record case := mk_case {
   o_missing : bool;             (* ErrMissingWhereClause returned *)
   o_execs : Z;                  (* exec / query / prepare driver calls *)
   o_changed : bool;             (* any table cell changed *)
-  o_other_err : bool
+  o_other_err : bool;
+  o_tx : list Z                 (* transaction events seen by the driver: 0 begin, 1 commit, 2 rollback *)
 }.
 
 Definition pk_atom : nat := 45.
@@ -41,6 +43,8 @@ Definition spec_holds (c : case) : bool :=
   | Some eff =>
     if negb (c_allow c) && negb (eff || c_pk c)
     then o_missing c && (o_execs c =? 0)%Z && negb (o_changed c)   (* never executes *)
+         (* at most an empty implicit transaction that is rolled back *)
+         && match o_tx c with [] => true | [0; 2] => true | _ => false end
     else negb (o_missing c)                                         (* never rejected on this ground *)
   end.
 
